@@ -66,6 +66,10 @@ THOROUGH_MODELS = QUICK_MODELS + [
     ("Task", "MC_Task_three_thorough.cfg", "hold"),
     ("Task", "MC_Task_live_thorough.cfg", "hold"),
     ("TaskRemote", "MC_TaskRemote_wake.cfg", "hold"),
+    ("TaskRemote", "MC_TaskRemote_join_thorough.cfg", "hold"),
+    ("TaskRemote", "MC_TaskRemote_join_fixed_thorough.cfg", "hold"),
+    ("TaskRemote", "MC_TaskRemote_w2_thorough.cfg", "hold"),
+    ("TaskRemote", "MC_TaskRemote_w2_fixed_thorough.cfg", "hold"),
     ("TaskRemote", "MC_TaskRemote_full_thorough.cfg", "hold"),
     ("TaskRemote", "MC_TaskRemote_live_wait.cfg", "hold"),
 ]
